@@ -265,13 +265,22 @@ impl QueryNode {
         output
     }
 
+    /// A leading AND / OR / NOT / && / || would be read as an operator.
+    fn starts_with_operator(input: &str) -> bool {
+        ["AND", "OR", "NOT", "&&", "||"]
+            .iter()
+            .any(|k| input.starts_with(k))
+    }
+
     pub fn lucene_escape(input: &str) -> String {
         let mut output = String::with_capacity(input.len());
+        if Self::starts_with_operator(input) {
+            output.push('\\');
+        }
         for c in input.chars() {
             if Self::needs_escape(c) {
                 output.push('\\');
             }
-            // TODO:  We're not catching '&&' and '||' but....does anyone do this?
             output.push(c);
         }
         output
